@@ -462,6 +462,7 @@ def conclude(check, tier, seed, results, timer, extra_coverage=None):
             "stub": ["multiprocessing.Pool (process creation, pipes, handler threads) -> simkit.simpool.SimPool", "wall clock seen by IMapIterator.next(timeout) -> virtual clock", "matplotlib.get_backend", "lmfit.minimize only when F4 fires"],
         },
         "harness_workers": batch.default_workers(),
+        "slowest_jobs": sorted(((round(r["wall"], 1), r["entry"], (r.get("meta") or {}).get("kind") or (r.get("meta") or {}).get("group")) for r in results), reverse=True)[:5],
     }
     stuck = [k for k in getattr(check, "EXPECTED_PROBES", []) if not probes.get(k) and not fired.get(k)]
     if stuck:
